@@ -720,6 +720,20 @@ def mon_c14(run, case, stmts):
             if st0 in TERMINAL:
                 run.v("C14", "suspended_although_completed", f"{o['kind']}:{st0}",
                       f"{o['path']}: invocation {o['inv']} was handed the operation as {st0} but the call suspended as if it were outstanding")
+    # ... nor one whose completion the SDK was told about earlier in this very invocation: a response that carried the
+    # terminal status was received, and afterwards the same user thread completed a synchronous checkpoint (responses are
+    # merged in order before their waiters are released), yet the call suspended
+    for o in run.obs:
+        if o["out"] != "suspend" or o["kind"] not in ("callback_result", "invoke"):
+            continue
+        oid = b.by_path.get(o["path"].split("#")[0])
+        told = [a for a in b.api if a["inv"] == o["inv"] and a.get("done") and oid in (a.get("told") or {}) and a.get("clk_end", 0) < o["clk"]]
+        if not told:
+            continue
+        t0 = told[0]["clk_end"]
+        if any(h["inv"] == o["inv"] and h["sync"] and h.get("returned") and h.get("task") == o.get("task") and t0 < h["clk"] and h.get("ret_clk", 10**12) < o["clk"] for h in run.handovers):
+            run.v("C14", "suspended_although_completed", f"{o['kind']}:{told[0]['told'][oid]}:told-in-this-invocation",
+                  f"{o['path']}: a backend response in invocation {o['inv']} already carried the operation as {told[0]['told'][oid]}, a later synchronous checkpoint of the same thread had returned, yet the call suspended as if it were outstanding")
     # invoke: exactly one START carrying payload / function / tenant
     for p, s in stmts.items():
         if s["op"] != "invoke":
